@@ -67,11 +67,19 @@ def state_view(b):
             "settings_log": norm(st["settings_log"]), "results_log": norm(st["results_log"])}
 
 
+def inst_keys(app, iid):
+    """the step times of the results log in the order the log holds them"""
+    inst = app._instance_manager._instances.get(iid, {}).get("instance")
+    if inst is None or inst.session_state is None:
+        return None
+    return [float(k) for k in inst.session_state["results_log"].keys()]
+
+
 def run_history(start, dt, kinds, compress, route, scenarios):
     from BPTK_Py.externalstateadapter import FileAdapter
     from fractions import Fraction
     viol = []
-    stop = float(Fraction(str(start)) + 6 * Fraction(str(dt)))
+    stop = float(Fraction(str(start)) + max(6, len(kinds) + 2) * Fraction(str(dt)))
     sd = os.path.join(core.scratch_dir(), "c19_%d" % os.getpid())
     shutil.rmtree(sd, ignore_errors=True)
     os.makedirs(sd)
@@ -98,6 +106,7 @@ def run_history(start, dt, kinds, compress, route, scenarios):
         before_results = srv.body(client.get("/%s/session-results" % iid))
         before_flat = srv.body(client.get("/%s/flat-session-results" % iid))
         before_state = state_view(app._instance_manager._instances[iid]["instance"])
+        before_order = inst_keys(app, iid)
         # ---- save / lose / restore
         if route == "auto":
             clock.advance(minutes=11)
@@ -129,6 +138,8 @@ def run_history(start, dt, kinds, compress, route, scenarios):
             return viol
         after_results = srv.body(r)
         after_flat = srv.body(client2.get("/%s/flat-session-results" % iid))
+        if inst_keys(app2, iid) != before_order:
+            viol.append(("log-order-differs", "%s: step order of the logs before %r, after %r" % (label, before_order, inst_keys(app2, iid))))
         if norm(after_results) != norm(before_results):
             viol.append(("session-results-differ", "%s: before %s after %s" % (label, json.dumps(before_results)[:300], json.dumps(after_results)[:300])))
         elif norm(after_flat) != norm(before_flat):
@@ -166,6 +177,12 @@ def jobs(tier):
                 if n <= 2:
                     out.append((st, dt, list(kinds), True, "restart", ["base", "alt"]))
                     out.append((st, dt, list(kinds), False, "auto", ["base", "alt"]))
+    # step times whose text order differs from their numeric order: negative times, and sessions of more than ten steps
+    for (st, dt, n) in ((-2, 1, 3), (-1, 0.5, 3), (0, 1, 12), (8, 1, 4)):
+        for kinds in (["v1"] + ["nobody"] * (n - 1), ["nobody", "v2p"] + ["empty"] * (n - 2), ["nobody"] * n):
+            for compress in (False, True):
+                for route in ("auto", "explicit", "restart"):
+                    out.append((st, dt, list(kinds), compress, route, ["base"]))
     return out
 
 
